@@ -14,8 +14,8 @@ REASONS = {
     "C10": "Not applicable: " + ENGINE,
     "C11": "Not applicable: " + ENGINE,
     "C12": "Not applicable: the property is about state after a panic unwinds; Kani/CBMC model panic as termination (no unwinding, no catch_unwind, drop guards do not run)",
-    "C14": "Not applicable: the smallest unit is InferenceTable::relate, which does not finish under CBMC even on a fully concrete pair (P18, 25 min)",
-    "C15": "Not applicable: same unit as C14 (relate + ena snapshot/rollback), same measurements",
+    "C14": "Not applicable: the smallest unit is InferenceTable::relate. Re-attempted in the build phase with the layout-engineered interner (harness/solveshadow/c14.rs, B18): the purely structural / lifetime steps of Unifier::relate_ty_ty do finish and are claimed under C29, but every class with an unknown goes through relate_var_ty (OccursCheck fold + generalize_ty + ena unify_var_value) and does not finish in 900 s even for one unknown against one placeholder, with or without the snapshot; without unknowns unification is structural equality and says nothing about unifiers or universes",
+    "C15": "Not applicable: same unit as C14 (relate); additionally InferenceTable::snapshot + rollback_to alone (vars.clone(), ena's undo log) on a two-variable table is inconclusive after 276 s (B18), and a failing relate with an unknown does not finish in 900 s",
     "C19": "Not applicable: attempted (harness/solveshadow/c19.rs: the priority assignment set_priorities + SpecializationPriorities::insert on a three-impl forest with a stub database) - one class does not finish in 600 s: SpecializationPriorities is an IndexMap with std RandomState (getrandom keys are nondeterministic, SipHash of them, hashbrown SIMD group probes modelled lane by lane), the forest is a petgraph Graph on the heap (DESIGN.md B16); the pairwise disjoint/specializes queries need solver runs. F2 is documented from its native reproduction only",
     "C20": "Not applicable: orphan-check clauses come from clause generation (P31) and are judged by a solver run",
     "C21": "Not applicable: a meta-property whose truth is an entailment evaluated by solver runs over a universe of types",
